@@ -7,6 +7,8 @@
 #include <stdlib.h>
 #include <string.h>
 
+#include "fiber_verif.h"
+
 wsd_circular_array_t* wsd_circular_array_create(size_t log_size) {
   const size_t data_size = 1 << log_size;
   wsd_circular_array_t* a =
@@ -81,6 +83,7 @@ void wsd_work_stealing_deque_push_bottom(wsd_work_stealing_deque_t* d,
     /* top is actually < bottom. the circular array API expects start < end */
     assert(t <= b);
     a = wsd_circular_array_grow(a, t, b);
+    FIBER_VERIF_POINT(FV_WSD_GROW, d, a);
     /* NOTE: d->underlying_array is lost. memory leak. */
     d->underlying_array = a;
   }
@@ -105,6 +108,7 @@ void* wsd_work_stealing_deque_pop_bottom(wsd_work_stealing_deque_t* d) {
     return ret;
   }
   const int64_t t_plus_one = t + 1;
+  FIBER_VERIF_POINT(FV_WSD_POP_MID, d, 0);
   if (!atomic_compare_exchange_weak(&d->top, &t, t_plus_one)) {
     atomic_store_explicit(&d->bottom, t_plus_one, memory_order_release);
     return WSD_ABORT;
@@ -124,6 +128,7 @@ void* wsd_work_stealing_deque_steal(wsd_work_stealing_deque_t* d) {
     return WSD_EMPTY;
   }
   void* const ret = wsd_circular_array_get(a, t);
+  FIBER_VERIF_POINT(FV_WSD_STEAL_PRE_CAS, d, 0);
   if (!atomic_compare_exchange_weak(&d->top, &t, t + 1)) {
     return WSD_ABORT;
   }
